@@ -54,8 +54,13 @@ def build(scn: dict):
 
     m = Model()
     m.add_variable("x0", 1.0)
+    import random as _random
+
+    from ..modelkit import typed
+
+    trnd = _random.Random(f"types/{scn.get('idx', 0)}/{sorted(scn['benv'])}")
     for n, v in scn["benv"].items():
-        m.add_parameter(n, float(v))
+        m.add_parameter(n, typed(v, trnd))     # the same number as a Python float / int or a numpy scalar
     for k in scn["ord"]:
         args = sorted(scn["req"][k])
         kind = scn["kind"][k]
